@@ -314,6 +314,7 @@ func (p *pkg) execFacts() {
 	selfSend := false
 	doneAfterInsert := false
 	doneOnEveryPath := false
+	errsBeforeDone := true
 	var collector *ast.FuncLit
 	ast.Inspect(ex.Body, func(n ast.Node) bool {
 		g, ok := n.(*ast.GoStmt)
@@ -371,10 +372,26 @@ func (p *pkg) execFacts() {
 					return "insert"
 				case "stepWg.Done":
 					return "done"
+				case "append":
+					if len(n.Args) > 0 && exprName(n.Args[0]) == "errs" {
+						return "recordErr"
+					}
 				}
 			}
 			return ""
 		})
+		// every statement recording a step error comes before the Done that lets Execute return
+		doneSeen := false
+		for _, e := range cevs {
+			switch e.kind {
+			case "done":
+				doneSeen = true
+			case "recordErr":
+				if doneSeen {
+					errsBeforeDone = false
+				}
+			}
+		}
 		seenInsert := false
 		firstDoneAfter := false
 		nDone := 0
@@ -429,6 +446,7 @@ func (p *pkg) execFacts() {
 	emit("    collectorInLoop := %s", leanBool(collectorInLoop))
 	emit("    doneAfterInsert := %s", leanBool(doneAfterInsert))
 	emit("    doneOnEveryPath := %s", leanBool(doneOnEveryPath))
+	emit("    errsBeforeDone := %s", leanBool(errsBeforeDone))
 	emit("    rootAddSpawnWait := %s }", leanBool(rootOK))
 }
 
